@@ -140,13 +140,18 @@ def relevant_kinds(m):
         if oc == 5: return [101]
     return []
 
+# set per program by the engine: the program compares Fee with something that is not a directly pushed constant
+UNKNOWN_FEE_OPERAND = False
+
 def admits(ctx, m, what):
     """does context `ctx` admit the values of member `m`? returns list of (property, field, detail) failures"""
     bad = []
     fee = m.get('Fee', 0)
     if ctx['fee'] is not None and fee > ctx['fee']:
         bad.append(('C09', 'Fee', f"fee {fee} > bound {ctx['fee']}"))
-    if ctx['fee'] is None and fee > MAXCOST:
+    if ctx['fee'] is None and fee > MAXCOST and not UNKNOWN_FEE_OPERAND:
+        # "bounded by a value the tool cannot evaluate" claims no known bound (C09, first sentence); it is questioned only
+        # on programs in which every Fee comparison has a directly pushed constant as its other operand
         bad.append(('C09', 'Fee', f"fee {fee} > unknown-bounded (272000)"))
     for k in relevant_kinds(m):
         if k not in ctx['types']:
